@@ -226,6 +226,7 @@ class HybridGibbs:
 
             # Extract state and history from sampler
             if isinstance(sampler, NUTS): # Special case for NUTS as it is not playing nice with get_state and get_history
+                constructed_initial_point = sampler.initial_point
                 sampler.initial_point = sampler.current_point
             else:
                 sampler_state = sampler.get_state()
@@ -233,6 +234,8 @@ class HybridGibbs:
 
             # Reinitialize sampler
             sampler.reinitialize()
+            if isinstance(sampler, NUTS): # reinitialize has consumed the temporary initial point: give the user's sampler its own back
+                sampler.initial_point = constructed_initial_point
 
             # Set state and history back to sampler
             if not isinstance(sampler, NUTS): # Again, special case for NUTS.
